@@ -17,6 +17,7 @@ package ctfe
 import (
 	"context"
 	"crypto/sha256"
+	"errors"
 	"fmt"
 
 	"github.com/google/certificate-transparency-go/asn1"
@@ -94,6 +95,9 @@ func (s *indirectIssuanceChainService) BuildLogLeaf(ctx context.Context, chain [
 // backend is enabled and the type of LogLeaf.ExtraData contains any hash
 // (e.g. PrecertChainEntryHash, CertificateChainHash).
 func (s *indirectIssuanceChainService) FixLogLeaf(ctx context.Context, leaf *trillian.LogLeaf) error {
+	if leaf == nil {
+		return errors.New("missing log leaf")
+	}
 	// As the struct stored in leaf.ExtraData is unknown, the only way is to try to unmarshal with each possible struct.
 	// Try to unmarshal with ct.PrecertChainEntryHash struct.
 	var precertChainHash ct.PrecertChainEntryHash
